@@ -79,7 +79,7 @@ def types_table(ctx, pkgs):
     return p, n
 
 
-def generated_request(ctx, every=1):
+def generated_request(ctx, every=1, big=False):
     """TLC (SchemaGen) -> struct layouts -> CodeGeneratorRequest built by harness/reqgen.  Returns (name, path, stats)."""
     sd = tlc.stage(ctx, "layout")
     r = tlc.run(ctx, sd, "SchemaGen", cfg="SchemaGen.cfg", workers=4, timeout=900)
@@ -90,6 +90,13 @@ def generated_request(ctx, every=1):
     total = len(structs)
     if every > 1:
         structs = [s for i, s in enumerate(structs) if (i + ctx.seed) % every == 0]
+    if big and structs:
+        # size boundaries of the struct node itself (the wire format allows 65535 data words and 65535 pointers): the same
+        # fields in a struct that declares a data / pointer section at the 16-bit arithmetic boundaries of byte counts
+        base = [s for s in structs if s.get("fields")][:2] or structs[:1]
+        for b in base:
+            for dw, pc in ((8191, b["ptrs"]), (8192, b["ptrs"]), (8193, b["ptrs"]), (65535, b["ptrs"]), (b["dataWords"], 65535), (8193, 8193)):
+                structs.append(dict(b, dataWords=max(dw, b["dataWords"]), ptrs=max(pc, b["ptrs"])))
     sf = ctx.path("structs.ndjson")
     with open(sf, "w") as f:
         for s in structs:
